@@ -68,6 +68,15 @@ Theorem C15_end_block_refund_xor_burn : forall P kf t stk s s' ev,
 Proof. exact end_block_refund_xor_burn. Qed.
 Print Assumptions C15_end_block_refund_xor_burn.
 
+Theorem C15_pay_out_accounting : forall s p burn s1 ev,
+  pay_out s p burn = Some (s1, ev) ->
+  (forall a, bal s1 a = bal s a + refunds_to a ev) /\
+  burned s1 = burned s + burns_of ev /\
+  gov_bal s1 = gov_bal s - (refunds_of ev + burns_of ev) /\
+  refunds_of ev + burns_of ev = sum_deps (p_deps p).
+Proof. exact pay_out_accounting. Qed.
+Print Assumptions C15_pay_out_accounting.
+
 (* ---- activation ---- *)
 Theorem C15_activation_step : forall P kf cust now d a p,
   p_status p = SDeposit -> p_status (deposited P kf cust now d a p) = SVoting ->
